@@ -147,6 +147,19 @@ func (ps *InitialPacketSpec) initialPN() protocol.PacketNumber {
 	return protocol.PacketNumber(ps.InitPacketNumber)
 }
 
+// firstPNLen is the packet-number encoding length the first Initial packet will use: entry 0 of
+// InitPacketNumberLengths, else InitPacketNumberLength, else the default rule (at least 2 bytes).
+// [UQUIC]
+func (ps *InitialPacketSpec) firstPNLen(pn protocol.PacketNumber) uint {
+	if len(ps.InitPacketNumberLengths) > 0 {
+		return uint(ps.InitPacketNumberLengths[0])
+	}
+	if ps.InitPacketNumberLength != 0 {
+		return uint(ps.InitPacketNumberLength)
+	}
+	return uint(protocol.PacketNumberLengthForHeader(pn, protocol.InvalidPacketNumber))
+}
+
 // UpdateConfig installs the spec's token source into conf, resolved by getTokenStore:
 // an explicit TokenStore wins, otherwise ClientTokenLength/ClientTokenPrefix synthesize
 // one. A spec that requests no token leaves conf.TokenStore untouched, so a caller's own
